@@ -351,6 +351,76 @@ func slowWriteTrial(r *vh.Run, i int) {
 	}
 }
 
+// closeTickTrial: Close while the collection ticker is as busy as a legal configuration makes it (periods from a
+// microsecond up): push one blob, close, a few hundred times over.  Close returns every time.
+func closeTickTrial(r *vh.Run, i int) {
+	kind := []vh.StoreKind{vh.Mem, vh.Dir, vh.MemDir}[i%3]
+	freq := []time.Duration{time.Microsecond, 20 * time.Microsecond, 200 * time.Microsecond, 2 * time.Millisecond}[(i/3)%4]
+	wit := map[string]any{"trial": i, "store": kind.String(), "gc_frequency": freq.String()}
+	for n := 0; n < 150; n++ {
+		root := ""
+		if kind != vh.Mem {
+			root = r.TempDir("c12t")
+		}
+		c := vh.Conf(kind, root, vh.Policy{Untagged: true, Grace: -1})
+		c.Storage.GC.Frequency = freq
+		srv := vh.New(c)
+		b := []byte(fmt.Sprintf("t%d.%d", i, n))
+		vh.Do(srv, vh.Req{Method: "POST", URL: "/v2/t/blobs/uploads/?digest=" + vh.DigestOf("sha256", b), Body: b})
+		res := vh.Watch(func() { _ = srv.Close() }, 3*time.Second, 40*time.Second)
+		if root != "" {
+			vh.RemoveAll(root)
+		}
+		r.Count("closes_under_a_busy_ticker", 1)
+		if res.Stalled {
+			wit["blocked_goroutines"], wit["attempt"] = res.Desc, n
+			r.Violation("close-hangs", fmt.Sprintf("Close of a %s store whose collection ticker runs every %s does not return (attempt %d): every goroutine inside olareg is blocked", kind, freq, n), wit)
+			return
+		}
+		if !res.Done {
+			r.Inconclusive("Close under a busy ticker still running after 40 s without a stable stall")
+			return
+		}
+	}
+	r.Count("close_tick_trials", 1)
+}
+
+// legacyOpenTrial: the first requests to a directory whose referrers were kept with the fallback tag scheme (the
+// conversion runs inside the first request that touches the repository) return, on the directory store and on the
+// memory store over it; so does Close.  (C17 judges what the conversion produces; that it ends is a C12 matter too.)
+func legacyOpenTrial(r *vh.Run, i int) {
+	rng := r.Rand(6_000_000 + i/2)
+	kind := []vh.StoreKind{vh.Dir, vh.MemDir}[i%2]
+	base := r.TempDir("c12l")
+	defer vh.RemoveAll(base)
+	L := vh.BuildLegacy(rng, base, fmt.Sprint("l", i/2))
+	srv := vh.New(vh.Conf(kind, base, vh.Neutral))
+	wit := map[string]any{"trial": i, "store": kind.String(), "fallback_index_classes": L.Kinds}
+	res := vh.Watch(func() {
+		vh.Do(srv, vh.Req{Method: "GET", URL: "/v2/leg/tags/list"})
+		for _, sj := range L.Subjects {
+			vh.Do(srv, vh.Req{Method: "GET", URL: "/v2/leg/referrers/" + sj})
+		}
+		vh.Do(srv, vh.Req{Method: "POST", URL: "/v2/leg/blobs/uploads/"})
+		vh.Do(srv, vh.Req{Method: "GET", URL: "/v2/other/tags/list"})
+	}, 3*time.Second, 40*time.Second)
+	r.Count("legacy_open_trials", 1)
+	if res.Stalled {
+		wit["blocked_goroutines"] = res.Desc
+		r.Violation("first-request-hangs:legacy-layout", fmt.Sprintf("the first requests to a directory with fallback-tag referrers never return on the %s store: every goroutine inside olareg is blocked (fallback index classes %v)", kind, L.Kinds), wit)
+		return
+	}
+	if !res.Done {
+		r.Inconclusive("first requests to a legacy layout still running after 40 s without a stable stall")
+		return
+	}
+	res = vh.Watch(func() { _ = srv.Close() }, 3*time.Second, 40*time.Second)
+	if res.Stalled {
+		wit["blocked_goroutines"] = res.Desc
+		r.Violation("close-hangs", "Close after opening a legacy layout does not return", wit)
+	}
+}
+
 func main() {
 	r := vh.Start()
 	vsync.SetTracking(true)
@@ -393,12 +463,19 @@ func main() {
 	st := stopAll
 	mu.Unlock()
 	np := r.N(12, 150)
+	nt := r.N(12, 120)
+	nl := r.N(24, 400)
 	if !st {
-		vh.Parallel(nc+np, 4, func(i int) {
-			if i < nc {
+		vh.Parallel(nc+np+nt+nl, 4, func(i int) {
+			switch {
+			case i < nc:
 				cancelTrial(r, i)
-			} else {
+			case i < nc+np:
 				precancelTrial(r, i-nc)
+			case i < nc+np+nt:
+				closeTickTrial(r, i-nc-np)
+			default:
+				legacyOpenTrial(r, i-nc-np-nt)
 			}
 		})
 	}
@@ -429,7 +506,7 @@ func main() {
 		r.Require("contended_acquisitions", 100)
 		r.Require("requests_blocked_behind_collection", 3)
 	}
-	r.Finish("stress batches of 6-12 concurrent clients x 25 sequences (chunked uploads with pauses, status queries, cancel / abandon / complete, image + artifact pushes, referrers reads, deletes, listings, idle periods) against 1-3 repositories with grace period 20-60 ms, RepoUploadMax 2-4, collection every 5-10 ms, Close during traffic in a third of the batches, both stores, seeded jitter before every mutex acquisition and WaitGroup wait; plus trials in which a request is held open, a collection waits for it, and a third request is cancelled, and trials of 40 requests whose context is cancelled before or while they run followed by an ordinary request and Close, and trials in which one chunk write holds the session lock for longer than the grace period while a status query refreshes the session; a case is one batch or trial, distinct = configurations (store, grace, frequency, limit, clients, repositories)", "batches", "configs")
+	r.Finish("stress batches of 6-12 concurrent clients x 25 sequences (chunked uploads with pauses, status queries, cancel / abandon / complete, image + artifact pushes, referrers reads, deletes, listings, idle periods) against 1-3 repositories with grace period 20-60 ms, RepoUploadMax 2-4, collection every 5-10 ms, Close during traffic in a third of the batches, both stores, seeded jitter before every mutex acquisition and WaitGroup wait; plus trials in which a request is held open, a collection waits for it, and a third request is cancelled, and trials of 40 requests whose context is cancelled before or while they run followed by an ordinary request and Close, trials that close a store whose collection ticker runs every 1 us - 2 ms (150 closes each), first requests to generated legacy layouts on the directory and memory-over-directory stores, and trials in which one chunk write holds the session lock for longer than the grace period while a status query refreshes the session; a case is one batch or trial, distinct = configurations (store, grace, frequency, limit, clients, repositories)", "batches", "configs")
 	if st {
 		os.Exit(0) // goroutines of the deadlocked batch are still parked
 	}
